@@ -5,6 +5,7 @@
 // Output: the REAL formatter's result as base64 of its UTF-8 bytes, the message's time (epoch ms) and thread id.
 #include <QCoreApplication>
 #include <QFile>
+#include <cstring>
 #include <QJsonArray>
 #include <QJsonDocument>
 #include <QJsonObject>
@@ -132,8 +133,19 @@ int main(int argc, char **argv)
         const QByteArray func = fromUnits(c["func"].toArray()).toLatin1();
         const QByteArray cat = fromUnits(c["cat"].toArray()).toLatin1();
         const bool nulls = c["nullctx"].toBool();
-        QMessageLogContext ctx(nulls ? nullptr : file.constData(), c["line"].toInt(), nulls ? nullptr : func.constData(),
-                               nulls ? nullptr : cat.constData());
+        // every other pair of cases passes its context strings in the SAME three buffers (as a logging macro wrapper with
+        // scratch buffers would): a formatter object that remembers something under the address of a context string
+        // meets that address again with other text in it
+        static char fileBuf[4096], funcBuf[4096], catBuf[4096];
+        const bool reuse = (c["id"].toInt() / 2) % 2 == 0 && file.size() < 4096 && func.size() < 4096 && cat.size() < 4096;
+        if (reuse) {
+            memcpy(fileBuf, file.constData(), size_t(file.size()) + 1);
+            memcpy(funcBuf, func.constData(), size_t(func.size()) + 1);
+            memcpy(catBuf, cat.constData(), size_t(cat.size()) + 1);
+        }
+        QMessageLogContext ctx(nulls ? nullptr : reuse ? fileBuf : file.constData(), c["line"].toInt(),
+                               nulls ? nullptr : reuse ? funcBuf : func.constData(),
+                               nulls ? nullptr : reuse ? catBuf : cat.constData());
         LogMessage msg(typeOf(c["type"].toString()), ctx, fromUnits(c["text"].toArray()));
         for (const auto &a : c["attrs"].toArray()) {
             const QJsonObject o = a.toObject();
